@@ -106,6 +106,15 @@ func CreateEngine(opts Options) (*Engine, error) {
 	// set catalog
 	e.catalog = data
 
+	// continue the timestamps after the last stored event as another process
+	// may have written it within the current second
+	if oplog := e.catalog.Namespaces[Oplog]; oplog != nil && len(oplog.Documents.List) > 0 {
+		last := oplog.Documents.List[len(oplog.Documents.List)-1]
+		if ts, ok := bsonkit.Get(last, "clusterTime").(primitive.Timestamp); ok {
+			bsonkit.Advance(ts)
+		}
+	}
+
 	// run expiry
 	e.tomb.Go(func() error {
 		e.expire(opts.ExpireInterval, opts.ExpireErrors)
